@@ -2,6 +2,7 @@ package seq
 
 import (
 	"fmt"
+	"math"
 	"testing"
 
 	age "github.com/craterdog/go-collection-framework/v4/agent"
@@ -330,12 +331,192 @@ func execDefaultSort(c defaultSortCase, _ core.Source) (res core.Result) {
 	return
 }
 
+// ---- other element types: values that Go's == calls equal although they differ (-0.0 and +0.0), values
+// that cannot be compared with == at all (slices), pointers, strings, and the mixed "any" values.
+// Every element is identified by something the sorter cannot see (bit pattern, backing array), so that a
+// value that was lost, duplicated or overwritten by an equal-looking one shows.
+type elemSortCase struct {
+	Elem   string `json:"elem"`   // float64 slice ptr string any
+	Ranker string `json:"ranker"` // by-class reversed constant default
+	Via    string `json:"via"`    // sorter List Array
+	Keys   []int  `json:"keys"`
+}
+
+var floatPool = []float64{math.Copysign(0, -1), 0, 1.5, -2, math.Inf(1), 3}
+
+func floatClass(f float64) int {
+	switch {
+	case f == 0:
+		return 2
+	case f == -2:
+		return 1
+	case f == 1.5:
+		return 3
+	case f == 3:
+		return 4
+	}
+	return 5
+}
+
+func execElemSort(c elemSortCase, _ core.Source) core.Result {
+	switch c.Elem {
+	case "float64":
+		vals := make([]float64, len(c.Keys))
+		for i, k := range c.Keys {
+			vals[i] = floatPool[k%len(floatPool)]
+		}
+		return elemSort(c, vals, func(f float64) any { return math.Float64bits(f) }, floatClass, func(a, b float64) bool { return a <= b })
+	case "slice":
+		vals := make([][]int, len(c.Keys))
+		for i, k := range c.Keys {
+			vals[i] = []int{k % 4}
+		}
+		return elemSort(c, vals, func(x []int) any { return &x[0] }, func(x []int) int { return x[0] }, func(a, b []int) bool { return a[0] <= b[0] })
+	case "ptr":
+		vals := make([]*int, len(c.Keys))
+		for i, k := range c.Keys {
+			vals[i] = cell(1 + k%4) // the same pointer occurs several times
+		}
+		return elemSort(c, vals, func(p *int) any { return p }, func(p *int) int { return *p }, func(a, b *int) bool { return *a <= *b })
+	case "string":
+		vals := make([]string, len(c.Keys))
+		for i, k := range c.Keys {
+			vals[i] = strOfCode(k % 5)
+		}
+		return elemSort(c, vals, func(x string) any { return x }, func(x string) int { return len(x)*10 + int((x + "\x00")[0]) }, func(a, b string) bool { return a <= b })
+	default:
+		vals := make([]any, len(c.Keys))
+		for i, k := range c.Keys {
+			vals[i] = encAny(k % 12)
+		}
+		ident := func(x any) any {
+			if sl, ok := x.([]int); ok {
+				if len(sl) == 0 {
+					return "nil-slice"
+				}
+				return &sl[0]
+			}
+			return x
+		}
+		return elemSort(c, vals, ident, decAny, nil)
+	}
+}
+
+func elemSort[E any](c elemSortCase, in []E, ident func(E) any, class func(E) int, natural func(a, b E) bool) (res core.Result) {
+	n := lib.Notation()
+	var rank age.RankingFunction[E]
+	var ordered func(a, b E) bool // a may stand before b
+	switch c.Ranker {
+	case "by-class":
+		rank = func(a, b E) age.Rank { return rankOfInts(class(a), class(b)) }
+		ordered = func(a, b E) bool { return class(a) <= class(b) }
+	case "reversed":
+		rank = func(a, b E) age.Rank { return rankOfInts(class(b), class(a)) }
+		ordered = func(a, b E) bool { return class(a) >= class(b) }
+	case "constant":
+		rank = func(a, b E) age.Rank { return age.EqualRank }
+	default:
+		ordered = natural
+	}
+	desc := fmt.Sprintf("%s sorting %d %s values with the %s ranker", c.Via, len(in), c.Elem, c.Ranker)
+	work := append([]E{}, in...)
+	var out []E
+	p, payload := lib.Call(func() {
+		switch c.Via {
+		case "sorter":
+			if rank == nil {
+				age.Sorter[E]().Make().SortValues(work)
+			} else {
+				age.Sorter[E]().MakeWithRanker(rank).SortValues(work)
+			}
+			out = work
+		case "List":
+			l := col.List[E](n).MakeFromArray(work)
+			if rank == nil {
+				l.SortValues()
+			} else {
+				l.SortValuesWithRanker(rank)
+			}
+			out = l.AsArray()
+		default:
+			a := col.Array[E](n).MakeFromArray(work)
+			if rank == nil {
+				a.SortValues()
+			} else {
+				a.SortValuesWithRanker(rank)
+			}
+			out = a.AsArray()
+		}
+	})
+	if p {
+		res.Violation = core.Violate("C09/elements/panicked/"+c.Elem, "%s panicked: %s", desc, lib.Short(payload))
+		return
+	}
+	count := map[any]int{}
+	for _, x := range in {
+		count[ident(x)]++
+	}
+	ok := len(out) == len(in)
+	for _, x := range out {
+		count[ident(x)]--
+	}
+	for _, d := range count {
+		ok = ok && d == 0
+	}
+	if !ok {
+		res.Violation = core.Violate("C09/elements/not-a-permutation/"+c.Elem, "%s turned %v into %v: a value was lost, duplicated or replaced by one that only looks equal", desc, in, out)
+		return
+	}
+	if ordered != nil {
+		for i := 0; i+1 < len(out); i++ {
+			if !ordered(out[i], out[i+1]) {
+				res.Violation = core.Violate("C09/elements/not-ascending/"+c.Elem, "%s left %v before %v: %v -> %v", desc, out[i], out[i+1], in, out)
+				return
+			}
+		}
+	}
+	// reversing and shuffling the same values
+	rev := append([]E{}, in...)
+	age.Sorter[E]().MakeWithRanker(func(a, b E) age.Rank { return age.EqualRank }).ReverseValues(rev)
+	for i := range rev {
+		if ident(rev[i]) != ident(in[len(in)-1-i]) {
+			res.Violation = core.Violate("C09/elements/ReverseValues/"+c.Elem, "ReverseValues(%v) = %v", in, rev)
+			return
+		}
+	}
+	classes := map[int]bool{}
+	for _, x := range in {
+		classes[class(x)] = true
+	}
+	res.NonTrivial = len(in) >= 2 && len(classes) >= 2
+	res.Classes = append(res.Classes, "elem-"+c.Elem, "ranker-"+c.Ranker, "via-"+c.Via)
+	return
+}
+
+func genElemSort(maxLen int) func(core.Source) elemSortCase {
+	return func(s core.Source) elemSortCase {
+		c := elemSortCase{Elem: core.Pick(s, []string{"float64", "slice", "ptr", "string", "any"}, "elem"), Via: core.Pick(s, []string{"sorter", "sorter", "List", "Array"}, "via"), Keys: []int{}}
+		rankers := []string{"by-class", "reversed", "constant", "default"}
+		if c.Elem == "any" || c.Elem == "slice" || c.Elem == "ptr" {
+			// the natural order is defined for values of one ordered type
+			rankers = rankers[:3]
+		}
+		c.Ranker = core.Pick(s, rankers, "ranker")
+		n := s.Choose(maxLen+1, "len")
+		for i := 0; i < n; i++ {
+			c.Keys = append(c.Keys, s.Choose(12, "key"))
+		}
+		return c
+	}
+}
+
 func TestC09(t *testing.T) {
 	r := core.Begin(t, "C09")
 	defer r.End()
 	all := append(append([]string{}, consistentRankers...), inconsistentRankers...)
 	core.DFS(r, core.Check[sortCase]{Name: "all-small-arrays", Gen: genSortExhaustive(r.N(7, 9), all), Exec: execSortCase, NoJournal: true}, 0)
 	core.Rapid(r, core.Check[sortCase]{Name: "random-arrays", Gen: genSortRandom(r.N(700, 5000)), Exec: execSortCase}, r.N(600, 5000))
+	core.Rapid(r, core.Check[elemSortCase]{Name: "element-types", Gen: genElemSort(24), Exec: execElemSort}, r.N(3000, 30000))
 	core.Rapid(r, core.Check[defaultSortCase]{Name: "default-ranker", Gen: func(s core.Source) defaultSortCase {
 		c := defaultSortCase{Elem: core.Pick(s, []string{"int", "string"}, "elem"), Keys: []int{}}
 		n := s.Choose(40, "len")
